@@ -1,7 +1,7 @@
 (* C01, write direction at FILE level.  The float printers (repr, ':g', str) are ORACLES: they are Section
    variables whose assumed behaviour is stated as Section hypotheses (what they print is read back as the
    value printed, on the numbers declared printable); Proofs/OsuWhole.v instantiates them with concrete
-   printers.  For every chart of the write domain the written text (as a file: joined with line feeds and
+   printers.  For every chart of the write domain the written_raw text (as a file: joined with line feeds and
    split again) is explicit, well formed, denotes an explicit chart [den_of] = the chart with note / sample
    times truncated toward zero, and is in the domain of the read theorem. *)
 From Coq Require Import String Ascii.
@@ -10,7 +10,7 @@ From RV Require Import Base.PyNum Base.Text Formats.Osu Formats.OsuSpec Proofs.O
 Import ListNotations.
 Open Scope Z_scope.
 
-(* ------------------------------------------------------------------ the fixed part of a written file *)
+(* ------------------------------------------------------------------ the fixed part of a written_raw file *)
 Inductive mline := ML_lit (s : text) | ML_kv (key : text) (i : nat) | ML_bg.
 Definition ITEMS : list mline :=
   [ ML_lit (t "osu file format v14"); ML_lit []; ML_lit (t "[General]");
@@ -77,7 +77,7 @@ Proof.
   pose proof items_ok as H. rewrite forallb_forall in H. exact (H it I).
 Qed.
 
-(* ------------------------------------------------------------------ the 30 attributes of a written file, computed *)
+(* ------------------------------------------------------------------ the 30 attributes of a written_raw file, computed *)
 Definition SLINES (w : nat -> text) (bg : text) : list text := map (mline_strip w bg) ITEMS.
 
 Lemma denote_keys_written w bg T :
@@ -88,7 +88,7 @@ Proof.
   lazy -[typed_value rstrip]. reflexivity.
 Qed.
 
-(* ------------------------------------------------------------------ the sections of a written file *)
+(* ------------------------------------------------------------------ the sections of a written_raw file *)
 Definition plain (l : text) : Prop := is_header l = false.
 Definition all_plain (ls : list text) : Prop := forall l, In l ls -> plain l.
 
@@ -194,9 +194,9 @@ Section Printer.
     - simpl. rewrite app_nil_r. reflexivity.
     - change (rline (tk :: tk2 :: l')) with (rtok tk ++ rline (tk2 :: l')). rewrite IH. reflexivity.
   Qed.
-  (* the text of the file a chart is written to (write_file joins with line feeds; read_file splits) *)
-  Definition written (c : chart) (ut ua : text) : option (list text) :=
-    option_map (fun wl => file_lines (rlines wl)) (osu_write c ut ua).
+  (* the text of the file a chart is written_raw to (write_file joins with line feeds; read_file splits) *)
+  Definition written_raw (c : chart) (ut ua : text) : option (list text) :=
+    option_map (fun wl => file_lines (rlines wl)) (osu_write_OLD c ut ua).
 
   (* ---------------------------------------------------------------- printed numbers *)
   Lemma num_text_facts s q : parse_dec s = Some q ->
@@ -236,6 +236,30 @@ Section Printer.
   Qed.
 
   (* ---------------------------------------------------------------- clean texts *)
+  (* what the proofs need of an attribute text: no line feed, no surrounding blanks ([clean] of the runner's
+     wf_chart also excludes carriage returns, which are harmless at the level of lists of lines) *)
+  Definition cleanw (s : text) : bool := negb (has 10 s) && text_eqb (strip s) s.
+  Definition mstr_okw (v : mval) : bool :=
+    match v with
+    | MStr s => cleanw s
+    | MTags l => forallb (fun w => cleanw w && nonempty w && negb (has 32 w)) l
+    | _ => true
+    end.
+  Lemma clean_cleanw s : clean s = true -> cleanw s = true.
+  Proof.
+    unfold clean, cleanw. intro H. apply andb_true_iff in H. destruct H as [H S]. apply andb_true_iff in H. destruct H as [H _].
+    rewrite H, S. reflexivity.
+  Qed.
+  Lemma mstr_ok_w v : mstr_ok v = true -> mstr_okw v = true.
+  Proof.
+    destruct v; simpl; auto using clean_cleanw. intro H. apply forallb_forall. intros w I. rewrite forallb_forall in H. specialize (H w I).
+    apply andb_true_iff in H. destruct H as [H A]. apply andb_true_iff in H. destruct H as [H B]. rewrite (clean_cleanw _ H), A, B. reflexivity.
+  Qed.
+  Lemma cleanw_facts s : cleanw s = true -> ~ In 10 s /\ stripped s.
+  Proof.
+    unfold cleanw. intro H. apply andb_true_iff in H. destruct H as [H S].
+    apply negb_true_iff in H. split; [apply has_false_iff; exact H|apply text_eqb_eq; exact S].
+  Qed.
   Lemma clean_facts s : clean s = true -> ~ In 10 s /\ stripped s.
   Proof.
     unfold clean. intro H. apply andb_true_iff in H. destruct H as [H S]. apply andb_true_iff in H. destruct H as [H _].
@@ -539,9 +563,9 @@ Section Printer.
     end.
 
   Lemma write_meta_text c ut ua :
-    rlines (write_meta c ut ua) = map (mline_text (kvw c ut ua) (c_bg c)) ITEMS ++ map write_sample (c_samples c).
+    rlines (write_meta_OLD c ut ua) = map (mline_text (kvw c ut ua) (c_bg c)) ITEMS ++ map write_sample (c_samples c).
   Proof.
-    unfold write_meta, rlines. rewrite map_app. f_equal.
+    unfold write_meta_OLD, rlines. rewrite map_app. f_equal.
     rewrite map_map. apply map_ext. reflexivity.
   Qed.
 
@@ -574,7 +598,7 @@ Section Printer.
     rewrite (show_num_reads _ P). reflexivity.
   Qed.
 
-  Definition tag_ok (w : text) : bool := clean w && nonempty w && negb (has 32 w).
+  Definition tag_ok (w : text) : bool := cleanw w && nonempty w && negb (has 32 w).
   Lemma join_last (c : Z) (l : list text) : l <> [] -> exists pre, join c l = pre ++ last l [].
   Proof.
     induction l as [|a l IH]; [congruence|]. intros _. destruct l as [|b l'].
@@ -593,7 +617,7 @@ Section Printer.
     assert (EACH: forall w, In w tags -> stripped w /\ w <> [] /\ ~ In 32 w).
     { intros w I. rewrite forallb_forall in F. specialize (F w I). unfold tag_ok in F.
       apply andb_true_iff in F. destruct F as [F H]. apply andb_true_iff in F. destruct F as [C NE].
-      destruct (clean_facts w C) as [_ S]. split; [exact S|]. split; [destruct w; [discriminate|discriminate]|].
+      destruct (cleanw_facts w C) as [_ S]. split; [exact S|]. split; [destruct w; [discriminate|discriminate]|].
       apply negb_true_iff in H. apply has_false_iff. exact H. }
     destruct tags as [|a tags']; [reflexivity|]. set (tags := a :: tags') in *.
     change (words (strip (join SPACE tags))) with (words' (strip (join SPACE tags))).
@@ -655,7 +679,7 @@ Section Printer.
   Qed.
 
   Lemma meta_values c ut ua :
-    kinds_ok key_table (c_meta c) = true -> forallb mstr_ok (c_meta c) = true ->
+    kinds_ok key_table (c_meta c) = true -> forallb mstr_okw (c_meta c) = true ->
     forallb printable (map (meta_num (c_meta c)) WN_IX) = true ->
     forallb iprintable (map (meta_num (c_meta c)) WI_IX) = true ->
     forallb is_integral (map (meta_num (c_meta c)) WI_IX) = true ->
@@ -673,7 +697,7 @@ Section Printer.
     destruct m; [|discriminate K]. clear K.
     repeat match goal with H : exists _, _ |- _ => destruct H as [? H] end.
     repeat match goal with H : _ /\ _ |- _ => destruct H end. subst.
-    cbn [forallb mstr_ok] in MS.
+    cbn [forallb mstr_okw] in MS.
     repeat (apply andb_true_iff in MS; destruct MS as [? MS]).
     cbn [WN_IX WI_IX map meta_num nth forallb] in PN, PI, II.
     repeat (apply andb_true_iff in PN; destruct PN as [? PN]).
@@ -686,18 +710,18 @@ Section Printer.
     repeat rewrite tv_inum by assumption. repeat rewrite tv_num by assumption.
     rewrite tv_tags by assumption.
     cbn [option_map obind]. rewrite ?strip_rstrip.
-    repeat match goal with H : clean ?s = true |- _ => rewrite (proj2 (clean_facts s H)); clear H end.
+    repeat match goal with H : cleanw ?s = true |- _ => rewrite (proj2 (cleanw_facts s H)); clear H end.
     reflexivity.
   Qed.
 
   (* ---------------------------------------------------------------- the attribute cells of a chart in the domain *)
-  Lemma meta_str_clean m i : forallb mstr_ok m = true -> clean (meta_str m i) = true.
+  Lemma meta_str_clean m i : forallb mstr_okw m = true -> cleanw (meta_str m i) = true.
   Proof.
     intro F. unfold meta_str. destruct (nth_in_or_default i m (MStr [])) as [I|E].
     - rewrite forallb_forall in F. specialize (F _ I). destruct (nth i m (MStr [])); try reflexivity. exact F.
     - rewrite E. reflexivity.
   Qed.
-  Lemma meta_tags_ok m i : forallb mstr_ok m = true -> forallb tag_ok (meta_tags m i) = true.
+  Lemma meta_tags_ok m i : forallb mstr_okw m = true -> forallb tag_ok (meta_tags m i) = true.
   Proof.
     intro F. unfold meta_tags. destruct (nth_in_or_default i m (MTags [])) as [I|E].
     - rewrite forallb_forall in F. specialize (F _ I). destruct (nth i m (MTags [])); try reflexivity. exact F.
@@ -707,13 +731,14 @@ Section Printer.
   Proof. intros F I. rewrite forallb_forall in F. apply F. apply in_map. exact I. Qed.
 
   (* the write domain, with the printers *)
-  Definition wdom (c : chart) (ut ua : text) : bool :=
-    write_domain c ut ua && forallb printable (wn_numbers c) && forallb iprintable (wi_numbers c).
+  Definition wdom_raw (c : chart) (ut ua : text) : bool :=
+    write_domain c ut ua && negb (has 10 ut) && negb (has 10 ua)
+    && forallb printable (wn_numbers c) && forallb iprintable (wi_numbers c).
 
   Record wfacts (c : chart) (ut ua : text) : Prop := {
     wf_len : length (c_meta c) = 30%nat;
     wf_kinds : kinds_ok key_table (c_meta c) = true;
-    wf_mstr : forallb mstr_ok (c_meta c) = true;
+    wf_mstr : forallb mstr_okw (c_meta c) = true;
     wf_pn : forallb printable (map (meta_num (c_meta c)) WN_IX) = true;
     wf_pi : forallb iprintable (map (meta_num (c_meta c)) WI_IX) = true;
     wf_ii : forallb is_integral (map (meta_num (c_meta c)) WI_IX) = true;
@@ -727,24 +752,23 @@ Section Printer.
     wf_hits : forall n, In n (c_hits c) -> note_ok (Qfloor (meta_num (c_meta c) IX_CS)) n = true;
     wf_holds : forall n, In n (c_holds c) -> note_ok (Qfloor (meta_num (c_meta c) IX_CS)) n = true;
     wf_ut : ~ In 10 ut;
-    wf_ua : ~ In 10 ua;
-    wf_ut13 : ~ In 13 ut;
-    wf_ua13 : ~ In 13 ua }.
+    wf_ua : ~ In 10 ua }.
 
   Lemma forallb_flat_map {A B} (p : B -> bool) (f : A -> list B) l x : forallb p (flat_map f l) = true -> In x l -> forallb p (f x) = true.
   Proof.
     intros F I. apply forallb_forall. intros y Iy. rewrite forallb_forall in F. apply F. apply in_flat_map. exists x. auto.
   Qed.
 
-  Lemma wdom_facts c ut ua : wdom c ut ua = true -> wfacts c ut ua.
+  Lemma wdom_raw_facts c ut ua : wdom_raw c ut ua = true -> wfacts c ut ua.
   Proof.
-    unfold wdom, write_domain, wf_chart. cbv zeta. intro H.
+    unfold wdom_raw, write_domain, wf_chart. cbv zeta. intro H.
     repeat (apply andb_true_iff in H; destruct H as [H ?]).
     match goal with X : forallb printable (wn_numbers c) = true |- _ =>
       unfold wn_numbers in X; rewrite !forallb_app in X;
       apply andb_true_iff in X; destruct X as [PN X]; apply andb_true_iff in X; destruct X as [PB PS] end.
     constructor; auto.
     - apply Nat.eqb_eq. exact H.
+    - eapply forallb_impl; [apply mstr_ok_w|assumption].
     - split; apply Z.leb_le; assumption.
     - match goal with X : _ && _ && _ = true |- _ =>
         apply andb_true_iff in X; destruct X as [X X3]; apply andb_true_iff in X; destruct X as [X1 X2] end.
@@ -762,11 +786,9 @@ Section Printer.
     - intros n I. match goal with X : forallb _ (c_holds c) = true |- _ => rewrite forallb_forall in X; exact (X n I) end.
     - apply has_false_iff. apply negb_true_iff. assumption.
     - apply has_false_iff. apply negb_true_iff. assumption.
-    - apply has_false_iff. apply negb_true_iff. assumption.
-    - apply has_false_iff. apply negb_true_iff. assumption.
   Qed.
 
-  (* ---------------------------------------------------------------- the written file, explicitly *)
+  (* ---------------------------------------------------------------- the written_raw file, explicitly *)
   Definition sorted_notes (c : chart) : list (bool * note) :=
     sort_by_off (map (fun x => (true, x)) (c_holds c) ++ map (fun x => (false, x)) (c_hits c)).
   Definition note_text (k : Z) (p : bool * note) : text := if fst p then write_hold (snd p) k else write_hit (snd p) k.
@@ -802,7 +824,7 @@ Section Printer.
     exists (wl :: r). simpl. rewrite F, O. cbn [obind]. split; auto. unfold rlines in *. simpl in *. inversion Hx. rewrite R. reflexivity.
   Qed.
 
-  (* no line feed inside the written lines *)
+  (* no line feed inside the written_raw lines *)
   Definition item_nl (it : mline) : bool :=
     match it with ML_lit s => negb (has 10 s) | ML_kv k i => negb (has 10 k) && (i <? 30)%nat | ML_bg => true end.
   Lemma items_nl : forallb item_nl ITEMS = true.
@@ -826,7 +848,7 @@ Section Printer.
   Lemma kvw_nl_free c ut ua : wfacts c ut ua -> forall i, (i < 30)%nat -> ~ In 10 (kvw c ut ua i).
   Proof.
     intros W i Hi. pose proof (wf_mstr _ _ _ W) as MS.
-    assert (STR: forall j, ~ In 10 (meta_str (c_meta c) j)) by (intro j; apply (clean_facts _ (meta_str_clean _ j MS))).
+    assert (STR: forall j, ~ In 10 (meta_str (c_meta c) j)) by (intro j; apply (cleanw_facts _ (meta_str_clean _ j MS))).
     assert (PN: forall j, In j WN_IX -> ~ In 10 (show_num (meta_num (c_meta c) j))).
     { intros j I. pose proof (forallb_map_in _ _ _ _ (wf_pn _ _ _ W) I) as P.
       apply (num_text_facts _ _ (show_num_reads _ P)). }
@@ -841,7 +863,7 @@ Section Printer.
     assert (TG: ~ In 10 (join SPACE (meta_tags (c_meta c) 21))).
     { unfold SPACE. apply in_join_no; [discriminate|]. apply Forall_forall. intros w I.
       pose proof (meta_tags_ok _ 21 MS) as T. rewrite forallb_forall in T. specialize (T w I). unfold tag_ok in T.
-      apply andb_true_iff in T. destruct T as [T _]. apply andb_true_iff in T. destruct T as [T _]. apply (clean_facts _ T). }
+      apply andb_true_iff in T. destruct T as [T _]. apply andb_true_iff in T. destruct T as [T _]. apply (cleanw_facts _ T). }
     do 30 (destruct i as [|i];
            [cbn [kvw]; try apply C32;
             first [ apply STR | apply SI | apply SS | exact TG | exact (wf_ut _ _ _ W) | exact (wf_ua _ _ _ W)
@@ -871,9 +893,9 @@ Section Printer.
     - intros x I. apply split_on_no_sep. exact (H x I).
   Qed.
 
-  Lemma written_file c ut ua : wfacts c ut ua -> written c ut ua = Some (FILE c ut ua).
+  Lemma written_file c ut ua : wfacts c ut ua -> written_raw c ut ua = Some (FILE c ut ua).
   Proof.
-    intro W. unfold written, osu_write. cbv zeta.
+    intro W. unfold written_raw, osu_write_OLD. cbv zeta.
     destruct (omap_render write_bpm bpm_text (c_bpms c)) as [bl [OB RB]].
     { intros b I. apply write_bpm_text. apply (wf_bpms _ _ _ W b I). }
     destruct (omap_render write_sv sv_text (c_svs c)) as [sl [OS RS]].
@@ -882,7 +904,7 @@ Section Printer.
     assert (KP: (keys_of c <=? 0) = false) by (apply Z.leb_gt; pose proof (wf_keys _ _ _ W); unfold keys_of; lia).
     rewrite KP. cbn [andb option_map]. f_equal.
     unfold file_lines. rewrite split_on_join_flat.
-    2:{ unfold write_meta. discriminate. }
+    2:{ unfold write_meta_OLD. discriminate. }
     assert (RA: forall a b, rlines (a ++ b) = rlines a ++ rlines b) by (intros; apply map_app).
     assert (RW: forall L, rlines (map (fun s => [WT s]) L) = L).
     { intro L. unfold rlines. rewrite map_map. cbn [rline rtok]. apply map_id. }
@@ -948,7 +970,7 @@ Section Printer.
     rewrite E. reflexivity.
   Qed.
 
-  (* ---------------------------------------------------------------- what the written file denotes *)
+  (* ---------------------------------------------------------------- what the written_raw file denotes *)
   Definition hits_of (l : list (bool * note)) : list note := map snd (filter (fun p => negb (fst p)) l).
   Definition holds_of (l : list (bool * note)) : list note := map snd (filter (fun p => fst p) l).
   Definition den_of (c : chart) (ut ua : text) : dchart :=
@@ -1314,13 +1336,13 @@ Section Printer.
   Qed.
 
   Lemma meta_written_agrees c ut ua : wfacts c ut ua ->
-    meta_agrees 0 (map Some (den_meta c ut ua)) (c_meta (written_chart c ut ua)) = true.
+    meta_agrees 0 (map Some (den_meta c ut ua)) (c_meta (written_chart_raw c ut ua)) = true.
   Proof.
     intro W. pose proof (wf_kinds _ _ _ W) as K. pose proof (wf_ss _ _ _ W) as SS. pose proof (wf_ii _ _ _ W) as II.
     destruct c as [m bg ss bpms svs hits holds]. cbn [c_meta] in *. clear W. revert SS II. meta_cells K. intros SS II.
     cbn [meta_num nth] in SS. destruct SS as [S1 [S2 S3]].
     cbn [WI_IX map meta_num nth forallb] in II. repeat (apply andb_true_iff in II; destruct II as [? II]).
-    unfold den_meta, written_chart. unfold key_table. cbv zeta.
+    unfold den_meta, written_chart_raw. unfold key_table. cbv zeta.
     cbn [c_meta backs back set_nth IX_TITLE IX_ARTIST IX_PREVIEW map meta_agrees meta_num nth].
     rewrite !mnum_close by (first [reflexivity | apply Qred_correct | apply trunc_integral_eq; assumption | apply ss_back; assumption]).
     cbn [mval_close]. rewrite !text_eqb_refl. rewrite (list_eqb_refl text_eqb) by apply text_eqb_refl.
@@ -1328,13 +1350,13 @@ Section Printer.
   Qed.
 
   Theorem write_denotes c ut ua : wfacts c ut ua ->
-    all_present (den_of c ut ua) = true /\ denotes 0 (den_of c ut ua) (written_chart c ut ua) = true.
+    all_present (den_of c ut ua) = true /\ denotes 0 (den_of c ut ua) (written_chart_raw c ut ua) = true.
   Proof.
     intro W. split.
     - unfold all_present, den_of. cbn [d_meta d_bg]. rewrite all_some. reflexivity.
-    - unfold denotes, den_of, written_chart. cbn [d_meta d_bg d_samples d_bpms d_svs d_hits d_holds c_meta c_bg c_samples c_bpms c_svs c_hits c_holds].
+    - unfold denotes, den_of, written_chart_raw. cbn [d_meta d_bg d_samples d_bpms d_svs d_hits d_holds c_meta c_bg c_samples c_bpms c_svs c_hits c_holds].
       change (set_nth (set_nth (set_nth (c_meta c) IX_PREVIEW (MNum (inject_Z (qtrunc (meta_num (c_meta c) IX_PREVIEW))))) IX_TITLE (MStr (strip ut))) IX_ARTIST (MStr (strip ua)))
-        with (c_meta (written_chart c ut ua)).
+        with (c_meta (written_chart_raw c ut ua)).
       rewrite (meta_written_agrees _ _ _ W). rewrite text_eqb_refl.
       rewrite perm_match_refl by (intro x; apply sample_close_refl; lra).
       rewrite perm_match_pointwise by (intros b I; apply bpm_den_close; apply (wf_bpms _ _ _ W b I)).
@@ -1344,14 +1366,8 @@ Section Printer.
       reflexivity.
   Qed.
 
-  (* the form evaluated by the correspondence runner on the implementation's output *)
-  Corollary write_spec c ut ua : wfacts c ut ua -> write_specb 0 c ut ua (FILE c ut ua) = true.
-  Proof.
-    intro W. unfold write_specb. rewrite (write_wf _ _ _ W), (denote_written _ _ _ W).
-    destruct (write_denotes _ _ _ W) as [A B]. rewrite A, B. reflexivity.
-  Qed.
 
-  (* ---------------------------------------------------------------- the written file is in the read domain *)
+  (* ---------------------------------------------------------------- the written_raw file is in the read domain *)
   Definition ITEMS_A : list mline := firstn 42 ITEMS.
   Definition EV_TAIL : list text := EV_REST ++ [SAMPLE_MARK].
   Lemma slines_split w bg : SLINES w bg = map (mline_strip w bg) ITEMS_A ++ bg_line bg :: EV_TAIL.
@@ -1414,7 +1430,7 @@ Section Printer.
     assert (EACH: forall w, In w tags -> stripped w /\ w <> [] /\ ~ In 32 w).
     { intros w I. rewrite forallb_forall in F. specialize (F w I). unfold tag_ok in F.
       apply andb_true_iff in F. destruct F as [F H]. apply andb_true_iff in F. destruct F as [C NE].
-      destruct (clean_facts w C) as [_ S]. split; [exact S|]. split; [destruct w; [discriminate|discriminate]|].
+      destruct (cleanw_facts w C) as [_ S]. split; [exact S|]. split; [destruct w; [discriminate|discriminate]|].
       apply negb_true_iff in H. apply has_false_iff. exact H. }
     destruct tags as [|a tags']; [reflexivity|]. set (tags := a :: tags') in *.
     assert (R: rstrip (join SPACE tags) = join SPACE tags).
@@ -1546,7 +1562,7 @@ Section Printer.
   Qed.
 
   (* ================================================================== generations *)
-  (* the chart read back from a written file *)
+  (* the chart read back from a written_raw file *)
   Definition canon (c : chart) (ut ua : text) : chart :=
     mkChart (den_meta c ut ua) (c_bg c) (map trunc_sample (c_samples c)) (map bpm_den (c_bpms c)) (map sv_den (c_svs c))
             (map (trunc_note false) (hits_of (sorted_notes c))) (map (trunc_note true) (holds_of (sorted_notes c))).
@@ -1568,8 +1584,8 @@ Section Printer.
     rewrite realize_meta_some by (apply den_meta_length; exact L). reflexivity.
   Qed.
 
-  (* read after write: the reader returns the chart written, with times truncated toward zero, the rows in
-     written order, numbers in lowest terms *)
+  (* read after write: the reader returns the chart written_raw, with times truncated toward zero, the rows in
+     written_raw order, numbers in lowest terms *)
   Lemma read_domain_split l : read_domain l = true -> wf_read_text l = true /\ strict_read_text l = true.
   Proof. unfold read_domain. intro H. apply andb_true_iff in H. exact H. Qed.
   Theorem read_after_write c ut ua : wfacts c ut ua -> osu_read (FILE c ut ua) = Some (canon c ut ua).
@@ -1653,12 +1669,11 @@ Section Printer.
   Qed.
 
   (* ---------------------------------------------------------------- the chart read back is again in the write domain *)
-  Lemma clean_strip s : ~ In 10 s -> ~ In 13 s -> clean (strip s) = true.
+  Lemma clean_strip s : ~ In 10 s -> cleanw (strip s) = true.
   Proof.
-    intros A B. unfold clean.
+    intros A. unfold cleanw.
     assert (H10: has 10 (strip s) = false) by (apply has_false_iff; intro I; apply A; apply in_strip; exact I).
-    assert (H13: has 13 (strip s) = false) by (apply has_false_iff; intro I; apply B; apply in_strip; exact I).
-    rewrite H10, H13, strip_idem, text_eqb_refl. reflexivity.
+    rewrite H10, strip_idem, text_eqb_refl. reflexivity.
   Qed.
   Lemma is_integral_Z z : is_integral (inject_Z z) = true.
   Proof. unfold is_integral. rewrite Qfloor_Z. apply Qeq_bool_refl. Qed.
@@ -1674,7 +1689,7 @@ Section Printer.
 
   Lemma canon_meta_facts c ut ua : wfacts c ut ua ->
     let m' := den_meta c ut ua in
-    kinds_ok key_table m' = true /\ forallb mstr_ok m' = true /\
+    kinds_ok key_table m' = true /\ forallb mstr_okw m' = true /\
     forallb printable (map (meta_num m') WN_IX) = true /\ forallb iprintable (map (meta_num m') WI_IX) = true /\
     forallb is_integral (map (meta_num m') WI_IX) = true /\
     meta_num m' IX_CS = Qred (meta_num (c_meta c) IX_CS) /\
@@ -1683,17 +1698,17 @@ Section Printer.
   Proof.
     intro W. pose proof (wf_kinds _ _ _ W) as K. pose proof (wf_mstr _ _ _ W) as MS. pose proof (wf_pn _ _ _ W) as PN.
     pose proof (wf_pi _ _ _ W) as PI. pose proof (wf_ii _ _ _ W) as II.
-    pose proof (clean_strip ut (wf_ut _ _ _ W) (wf_ut13 _ _ _ W)) as CU.
-    pose proof (clean_strip ua (wf_ua _ _ _ W) (wf_ua13 _ _ _ W)) as CA.
+    pose proof (clean_strip ut (wf_ut _ _ _ W)) as CU.
+    pose proof (clean_strip ua (wf_ua _ _ _ W)) as CA.
     destruct c as [m bg ss bpms svs hits holds]. cbn [c_meta] in *. clear W. revert MS PN PI II. meta_cells K. intros MS PN PI II.
-    cbn [forallb mstr_ok] in MS. repeat (apply andb_true_iff in MS; destruct MS as [? MS]).
+    cbn [forallb mstr_okw] in MS. repeat (apply andb_true_iff in MS; destruct MS as [? MS]).
     cbn [WN_IX WI_IX map meta_num nth forallb] in PN, PI, II.
     repeat (apply andb_true_iff in PN; destruct PN as [? PN]).
     repeat (apply andb_true_iff in PI; destruct PI as [? PI]).
     repeat (apply andb_true_iff in II; destruct II as [? II]).
     unfold den_meta. unfold key_table. cbv zeta. cbn [c_meta backs back set_nth IX_TITLE IX_ARTIST].
     split; [reflexivity|]. split.
-    { cbn [forallb mstr_ok]. repeat match goal with H : clean _ = true |- _ => rewrite H; clear H end.
+    { cbn [forallb mstr_okw]. repeat match goal with H : cleanw _ = true |- _ => rewrite H; clear H end.
       match goal with H : forallb _ _ = true |- _ => rewrite H end. reflexivity. }
     split.
     { cbn [WN_IX map meta_num nth forallb]. rewrite !(fun q => printable_ext (Qred q) q (Qred_correct q)).
@@ -1761,8 +1776,6 @@ Section Printer.
       apply in_holds_of in I. pose proof (sorted_note_ok _ _ _ _ W I) as OK. exact OK.
     - intro I. apply (wf_ut _ _ _ W). apply in_strip. exact I.
     - intro I. apply (wf_ua _ _ _ W). apply in_strip. exact I.
-    - intro I. apply (wf_ut13 _ _ _ W). apply in_strip. exact I.
-    - intro I. apply (wf_ua13 _ _ _ W). apply in_strip. exact I.
   Qed.
 
   (* ---------------------------------------------------------------- writing the chart read back changes nothing any more *)
@@ -1845,7 +1858,7 @@ Section Printer.
     let g2 := FILE c2 (strip ut) (strip ua) in
     let c3 := canon c2 (strip ut) (strip ua) in
     let g3 := FILE c3 (strip (strip ut)) (strip (strip ua)) in
-    osu_read g1 = Some c2 /\ written c2 (strip ut) (strip ua) = Some g2 /\
+    osu_read g1 = Some c2 /\ written_raw c2 (strip ut) (strip ua) = Some g2 /\
     wf_osu_text g2 = true /\ same_denotation 0 g1 g2 = true /\
     osu_read g2 = Some c3 /\ c3 = c2 /\ g3 = g2.
   Proof.
@@ -1857,5 +1870,45 @@ Section Printer.
       unfold g2, c2. rewrite (denote_written _ _ _ W2). f_equal. apply den_of_canon. exact W.
     - split; [apply read_after_write; exact W2|]. split; [exact C3|].
       unfold g3. rewrite C3. rewrite !strip_idem. reflexivity.
+  Qed.
+
+  (* ================================================================== the current writer (repo commit fde22cd)
+     unidecode(...).replace("\n", " "): the current writer IS the old writer applied to the transliterations with
+     their line feeds replaced by blanks; nothing is demanded of ut / ua any more *)
+  Lemma one_line_no_lf s : ~ In 10 (one_line s).
+  Proof.
+    unfold one_line. intro I. apply in_map_iff in I. destruct I as [c [E _]].
+    unfold NL, SPACE in E. destruct (Z.eqb_spec c 10); [discriminate E|congruence].
+  Qed.
+  Lemma one_line_id s : ~ In 10 s -> one_line s = s.
+  Proof.
+    intro H. unfold one_line. rewrite <- (map_id s) at 2. apply map_ext_in. intros c I.
+    unfold NL. destruct (Z.eqb_spec c 10); [subst; contradiction|reflexivity].
+  Qed.
+  Lemma osu_write_one_line c ut ua : osu_write c ut ua = osu_write_OLD c (one_line ut) (one_line ua).
+  Proof. reflexivity. Qed.
+
+  Definition wdom (c : chart) (ut ua : text) : bool :=
+    write_domain c ut ua && forallb printable (wn_numbers c) && forallb iprintable (wi_numbers c).
+  Definition written (c : chart) (ut ua : text) : option (list text) :=
+    option_map (fun wl => file_lines (rlines wl)) (osu_write c ut ua).
+  Lemma written_one_line c ut ua : written c ut ua = written_raw c (one_line ut) (one_line ua).
+  Proof. reflexivity. Qed.
+  Lemma wdom_facts c ut ua : wdom c ut ua = true -> wfacts c (one_line ut) (one_line ua).
+  Proof.
+    intro H. apply wdom_raw_facts. unfold wdom in H. unfold wdom_raw.
+    apply andb_true_iff in H. destruct H as [H PI]. apply andb_true_iff in H. destruct H as [WD PN].
+    change (write_domain c (one_line ut) (one_line ua)) with (write_domain c ut ua). rewrite WD, PN, PI.
+    rewrite (proj2 (has_false_iff 10 (one_line ut)) (one_line_no_lf ut)).
+    rewrite (proj2 (has_false_iff 10 (one_line ua)) (one_line_no_lf ua)). reflexivity.
+  Qed.
+  (* the form evaluated by the correspondence runner on the implementation's output *)
+  Corollary write_spec c ut ua : wdom c ut ua = true ->
+    written c ut ua = Some (FILE c (one_line ut) (one_line ua)) /\
+    write_specb 0 c ut ua (FILE c (one_line ut) (one_line ua)) = true.
+  Proof.
+    intro D. pose proof (wdom_facts _ _ _ D) as W. split; [rewrite written_one_line; apply written_file; exact W|].
+    unfold write_specb. rewrite (write_wf _ _ _ W), (denote_written _ _ _ W).
+    destruct (write_denotes _ _ _ W) as [A B]. unfold written_chart. rewrite A, B. reflexivity.
   Qed.
 End Printer.
